@@ -988,3 +988,17 @@ def r4_13(run):
 
 
 RULES.append(("R4.13", r4_13))
+
+EXPLANATION += (' ' + '(R4.14, shared with C05 R5.8) every run rebinds every result table to a fresh all-NaN frame on every path: the rows of elements outside the '
+                'supplied part are NaN because nothing writes them, not because an in-place reset happened to reach the storage of the frame.')
+
+
+def r4_14(run):
+    """unsupplied and out-of-service elements report NaN: result extraction writes only the rows of calculated elements and relies on
+    all other rows being NaN from init_results_element.  An in-place reset (`res.values[:] = nan`) works only while the frame is stored
+    in one block (not after from_pickle, not after a column was added) -- shared with C05 R5.8."""
+    from .c05 import r5_8
+    r5_8(run)
+
+
+RULES.append(("R4.14", r4_14))
